@@ -70,6 +70,7 @@ type udpWorld struct {
 	s       *mem.UDPSession
 	handler func(w *responsewriter.ResponseWriter[*udpclient.Conn], r *pool.Message)
 	onSent  func(m *pool.Message) // peer behaviour: called (outside the connection's goroutines) for every datagram written
+	gate    func(m *pool.Message) // called inside the connection's write: may block it (a slow socket)
 	mid     int32
 	mu      sync.Mutex
 	later   []func()
@@ -94,6 +95,9 @@ func newUDP(bw bool) *udpWorld {
 		}
 		if poisoned(m) || m.MessageID() == pool.VerifPoisonMID {
 			pool.VerifTraceMark("leak", m)
+		}
+		if w.gate != nil {
+			w.gate(m)
 		}
 		if w.onSent != nil {
 			cb := w.onSent
@@ -265,6 +269,85 @@ func scnDoUDP(t *testing.T, kind string) {
 		}
 		cancel()
 		<-done
+	}
+	_ = w.cc.Close()
+	synctest.Wait()
+}
+
+// earlyrel: the application releases the response the moment the request call returns and immediately re-uses the
+// pool, while the receive path that delivered the response is still busy (its ACK for the separate confirmable response
+// is held up in the socket write).  `conf` selects a confirmable (ACK is written) or non-confirmable separate response.
+func scnEarlyReleaseUDP(t *testing.T, rounds int) {
+	w := newUDP(false)
+	var mu sync.Mutex
+	var gateCh chan struct{}
+	w.gate = func(m *pool.Message) {
+		if m.Type() == message.Acknowledgement && m.Code() == codes.Empty {
+			mu.Lock()
+			ch := gateCh
+			mu.Unlock()
+			if ch != nil {
+				<-ch
+			}
+		}
+	}
+	answered := map[int32]bool{}
+	w.onSent = func(m *pool.Message) {
+		if m.Code() < codes.GET || m.Code() > codes.DELETE {
+			return
+		}
+		mu.Lock()
+		dup := answered[m.MessageID()]
+		answered[m.MessageID()] = true
+		mu.Unlock()
+		if dup {
+			return
+		}
+		ack := reply(m, message.Acknowledgement, codes.Empty, m.MessageID(), "", -1)
+		ack.SetToken(nil) // a proper empty ACK carries no token
+		w.inject(ack)
+		time.Sleep(10 * time.Millisecond)
+		w.inject(reply(m, message.Confirmable, codes.Content, w.nextMID(), "separate-con", -1))
+	}
+	for i := 0; i < rounds; i++ {
+		ch := make(chan struct{})
+		mu.Lock()
+		gateCh = ch
+		mu.Unlock()
+		ctx, cancel := context.WithTimeout(context.Background(), 40*time.Second)
+		resp, err := w.cc.Get(ctx, "/x")
+		if err != nil {
+			close(ch)
+			cancel()
+			continue
+		}
+		end := hold(resp)
+		end()
+		w.cc.ReleaseMessage(resp) // the application is done with the response at once
+		// ... and goes on to use the pool: what it acquires now is its own until it releases it
+		var mine []*pool.Message
+		var ends []func()
+		for k := 0; k < 3; k++ {
+			m := w.cc.AcquireMessage(ctx)
+			m.SetCode(codes.PUT)
+			m.SetToken(message.Token{0xA0, byte(i), byte(k)})
+			_ = m.SetPath("/mine")
+			m.SetBody(strings.NewReader(fmt.Sprintf("mine-%d-%d", i, k)))
+			mine = append(mine, m)
+			ends = append(ends, hold(m))
+		}
+		mu.Lock()
+		gateCh = nil
+		mu.Unlock()
+		close(ch) // the receive path finishes its ACK and its own clean-up now
+		synctest.Wait()
+		time.Sleep(5 * time.Millisecond)
+		synctest.Wait()
+		for k, m := range mine {
+			ends[k]()
+			w.cc.ReleaseMessage(m)
+		}
+		cancel()
 	}
 	_ = w.cc.Close()
 	synctest.Wait()
@@ -559,6 +642,9 @@ func runScenario(t *testing.T, f []string) (trace []string) {
 			scnPathUDP(t, arg)
 		case "udp:do":
 			scnDoUDP(t, arg)
+		case "udp:earlyrel":
+			n, _ := strconv.Atoi(arg)
+			scnEarlyReleaseUDP(t, n)
 		case "udp:observe":
 			n, _ := strconv.Atoi(arg)
 			scnObserveUDP(t, n)
